@@ -704,6 +704,58 @@ reg("C18", custom=check_c18, mc=[("crash", 4, 5)], title="Torn write history", l
 # ---------------------------------------------------------------------------------------
 # Replay
 # ---------------------------------------------------------------------------------------
+def shrink(pid, path, work, budget=60):
+    """Delta-debug a violating history: drop requests while the same clause still fails."""
+    body = json.load(open(path))
+    if body.get("kind") or any(o.get("op") in ("CoopBegin", "Paginate", "PagLinks") for o in body["ops"]):
+        print("shrink: only plain request histories are shrunk")
+        return 2
+    cfg = P[body["property"]]
+    hook = getattr(hooks, "hook_" + cfg["hook"]) if cfg["hook"] else None
+    rules = [tuple(x) for x in s2b(body["rules"])]
+    want = set(c[1].split("(")[0] for c in body["failing"])
+
+    def fails(ops, n):
+        tr = runner.run_fixed(body["backend"], body["def"], rules, ops, hook=hook, tid=0, src="shrink")
+        val = runner.validate([tr], os.path.join(work, "sh%d" % n))
+        viol, _, _ = judge(body["property"], cfg, [tr], val, load_known())
+        got = set(c[1].split("(")[0] for v in viol for c in v["clauses"])
+        return bool(got & want)
+    ops = s2b(body["ops"])
+    for op in ops:
+        for k in ("pairs", "data", "rules"):
+            if k in op:
+                op[k] = [tuple(x) for x in op[k]]
+    n = 0
+    last = max(c[0] for c in body["failing"]) - 1      # steps are 1-based with Init first
+    ops = ops[:last]
+    if not fails(ops, n):
+        print("shrink: the violation does not reproduce on the current tree")
+        return 0
+    chunk = max(1, len(ops) // 2)
+    while chunk >= 1 and n < budget:
+        i = 0
+        progress = False
+        while i < len(ops) and n < budget:
+            cand = ops[:i] + ops[i + chunk:]
+            n += 1
+            if cand and fails(cand, n):
+                ops = cand
+                progress = True
+            else:
+                i += chunk
+        if not progress:
+            chunk //= 2
+    body["ops"] = b2s(ops)
+    body["shrunk_from"] = os.path.basename(path)
+    out = path.replace(".json", ".min.json")
+    json.dump(body, open(out, "w"), indent=1, sort_keys=True)
+    print("shrink: %d requests -> %d requests after %d attempts: %s" % (last, len(ops), n, out))
+    for op in ops:
+        print("   ", {k: (v if not isinstance(v, (bytes, list, tuple)) else repr(v)[:90]) for k, v in op.items()})
+    return 1
+
+
 def replay(pid, path, work):
     body = json.load(open(path))
     if body.get("kind") == "variations":
